@@ -688,7 +688,9 @@ def _plan_range(ctx: Ctx) -> None:
     gw.walk(env, func_body(vf))
     n = Poly.var("self.instance.n_cities")
     ok = False
-    detail = "no raising range check over all cells found"
+    from sa.guards import opaque_note
+    detail = opaque_note(gw.exits, lambda e: len(e.loops) == 2) + \
+        "no raising range check over all cells found"
     node: ast.AST = vf.node
     for e in gw.exits:
         if e.kind != "raise" or len(e.loops) != 2 or is_opaque(e.cond):
